@@ -1,6 +1,7 @@
 (* Case runner for the C18 correspondence: renders JSON values / results as one line of text and
    dispatches converter names to the model functions of Model/Yang.v. *)
 From Verif Require Import Prelude Model.YangPrecision Model.Yang.
+From Coq Require Import Uint63.
 Open Scope Z_scope.
 
 Definition q : string := "'"%string.
@@ -15,61 +16,109 @@ Fixpoint render (j : json) : string :=
   | JObj o => append "{" (append (join "," (map (fun kv => append q (append (fst kv) (append q (append ":" (render (snd kv)))))) o)) "}")
   end%string.
 
-Definition render_res (r : res json) : string :=
-  match r with Ok j => render j | Err e => append "E:" e end.
-Definition render_obj (r : res obj) : string :=
-  match r with Ok o => render (JObj o) | Err e => append "E:" e end.
+(* ---- digest of a JSON value (machine integers: execution only, never under a theorem).  The generated
+   cases print digests instead of documents: reading back and printing hundreds of kilobytes of text is what
+   dominated the run.  `full` switches to the complete text (used to report a disagreement). ---- *)
+Definition mix (h x : int) : int := (h * 1000003 + x)%uint63.
+Definition b2i (b : bool) : int := if b then 1%uint63 else 0%uint63.
+Definition code (c : ascii) : int :=
+  match c with
+  | Ascii b0 b1 b2 b3 b4 b5 b6 b7 =>
+      (b2i b0 + 2 * b2i b1 + 4 * b2i b2 + 8 * b2i b3 + 16 * b2i b4 + 32 * b2i b5 + 64 * b2i b6 + 128 * b2i b7)%uint63
+  end.
+Fixpoint hstr (s : string) (h : int) : int :=
+  match s with
+  | EmptyString => mix h 255
+  | String c t => hstr t (mix h (code c))
+  end.
+Definition two60 : Z := 2 ^ 60.
+Definition hz (z : Z) (h : int) : int :=
+  let a := Z.abs z in
+  mix (mix (mix h (if (z <? 0)%Z then 1%uint63 else 0%uint63)) (Uint63.of_Z (a mod two60))) (Uint63.of_Z ((a / two60) mod two60)).
+Fixpoint hjson (j : json) (h : int) : int :=
+  match j with
+  | JNull => mix h 1
+  | JBool b => mix h (if b then 2 else 3)%uint63
+  | JNum m d => hz (Z.of_nat d) (hz m (mix h 4))
+  | JStr s => hstr s (mix h 5)
+  | JArr l => mix (fold_left (fun h x => hjson x h) l (mix h 6)) 7
+  | JObj o => mix (fold_left (fun h kv => hjson (snd kv) (hstr (fst kv) h)) o (mix h 8)) 9
+  end.
+Definition digest (j : json) : string := append "H" (zs (Uint63.to_Z (hjson j 0%uint63))).
 
-Definition on_obj (f : obj -> res obj) (j : json) : string :=
-  match j with JObj o => render_obj (f o) | _ => "E:TypeError:dict expected"%string end.
+Definition show (full : bool) (j : json) : string := if full then render j else digest j.
+Definition render_res (full : bool) (r : res json) : string :=
+  match r with Ok j => show full j | Err e => append "E:" e end.
+Definition render_obj (full : bool) (r : res obj) : string :=
+  match r with Ok o => show full (JObj o) | Err e => append "E:" e end.
 
-Definition render_alias (r : res (list (string * obj))) : string :=
+Definition on_obj (full : bool) (f : obj -> res obj) (j : json) : string :=
+  match j with JObj o => render_obj full (f o) | _ => "E:TypeError:dict expected"%string end.
+
+Definition render_alias (full : bool) (r : res (list (string * obj))) : string :=
   match r with
-  | Ok l => join ";" (map (fun nv => append (fst nv) (append "=" (render (JObj (snd nv))))) l)
+  | Ok l => if full then join ";" (map (fun nv => append (fst nv) (append "=" (render (JObj (snd nv))))) l)
+            else digest (JArr (map (fun nv => JArr [JStr (fst nv); JObj (snd nv)]) l))
   | Err e => append "E:" e
   end.
 
 Definition S (a b : string) : bool := String.eqb a b.
 
-Definition run_fn (name : string) (j : json) : string :=
-  if S name "n2e" then render (none_to_empty j)
-  else if S name "e2n" then render (empty_to_none j)
-  else if S name "cdict" then render_res (convert_dict j)
-  else if S name "cback" then render_res (convert_back j)
-  else if S name "l2y" then render_res (legacy_to_yang j)
-  else if S name "y2l" then render_res (yang_to_legacy j)
-  else if S name "l2y_y2l" then render_res (let* y := legacy_to_yang j in yang_to_legacy y)
-  else if S name "l2y_y2l_l2y" then render_res (let* y := legacy_to_yang j in let* l := yang_to_legacy y in legacy_to_yang l)
-  else if S name "ns_topo" then render (remove_ns "gnpy-network-topology:" j)
-  else if S name "ns_eqpt" then render (remove_ns "gnpy-eqpt-config:" j)
-  else if S name "reorder_raman_pumps" then on_obj reorder_raman_pumps j
-  else if S name "reorder_lumped_losses" then on_obj reorder_lumped_losses j
-  else if S name "remove_null_region_city" then on_obj remove_null_region_city j
-  else if S name "degree" then on_obj convert_degree j
-  else if S name "back_degree" then on_obj convert_back_degree j
-  else if S name "design_band" then on_obj convert_design_band j
-  else if S name "back_design_band" then on_obj convert_back_design_band j
-  else if S name "loss" then on_obj convert_loss_coeff_list j
-  else if S name "back_loss" then on_obj convert_back_loss_coeff_list j
-  else if S name "raman" then on_obj convert_raman_coef j
-  else if S name "back_raman" then on_obj convert_back_raman_coef j
-  else if S name "raman_eff" then on_obj convert_raman_efficiency j
-  else if S name "back_raman_eff" then on_obj convert_back_raman_efficiency j
-  else if S name "range" then on_obj convert_delta_power_range j
-  else if S name "back_range" then on_obj convert_back_delta_power_range j
-  else if S name "nf_coef" then on_obj convert_nf_coef j
-  else if S name "back_nf_coef" then on_obj convert_back_nf_coef j
-  else if S name "nf_fit" then on_obj convert_nf_fit_coef j
-  else if S name "back_nf_fit" then on_obj convert_back_nf_fit_coef j
-  else if S name "add_default" then on_obj add_missing_default_type_variety j
-  else if S name "reorder_route" then on_obj reorder_route_objects j
-  else if S name "union" then on_obj remove_union_that_fail j
-  else if S name "alias_edfa" then match j with JObj o => render_alias (expand_edfa o) | _ => "E:TypeError" end
-  else if S name "alias_trx" then match j with JObj o => render_alias (expand_trx o) | _ => "E:TypeError" end
+Definition run_base (full : bool) (name : string) (j : json) : string :=
+  if S name "n2e" then show full (none_to_empty j)
+  else if S name "e2n" then show full (empty_to_none j)
+  else if S name "cdict" then render_res full (convert_dict j)
+  else if S name "cback" then render_res full (convert_back j)
+  else if S name "l2y" then render_res full (legacy_to_yang j)
+  else if S name "y2l" then render_res full (yang_to_legacy j)
+  else if S name "l2y_y2l" then render_res full (let* y := legacy_to_yang j in yang_to_legacy y)
+  else if S name "l2y_y2l_l2y" then render_res full (let* y := legacy_to_yang j in let* l := yang_to_legacy y in legacy_to_yang l)
+  else if S name "ns_topo" then show full (remove_ns "gnpy-network-topology:" j)
+  else if S name "ns_eqpt" then show full (remove_ns "gnpy-eqpt-config:" j)
+  else if S name "reorder_raman_pumps" then on_obj full reorder_raman_pumps j
+  else if S name "reorder_lumped_losses" then on_obj full reorder_lumped_losses j
+  else if S name "remove_null_region_city" then on_obj full remove_null_region_city j
+  else if S name "degree" then on_obj full convert_degree j
+  else if S name "back_degree" then on_obj full convert_back_degree j
+  else if S name "design_band" then on_obj full convert_design_band j
+  else if S name "back_design_band" then on_obj full convert_back_design_band j
+  else if S name "loss" then on_obj full convert_loss_coeff_list j
+  else if S name "back_loss" then on_obj full convert_back_loss_coeff_list j
+  else if S name "raman" then on_obj full convert_raman_coef j
+  else if S name "back_raman" then on_obj full convert_back_raman_coef j
+  else if S name "raman_eff" then on_obj full convert_raman_efficiency j
+  else if S name "back_raman_eff" then on_obj full convert_back_raman_efficiency j
+  else if S name "range" then on_obj full convert_delta_power_range j
+  else if S name "back_range" then on_obj full convert_back_delta_power_range j
+  else if S name "nf_coef" then on_obj full convert_nf_coef j
+  else if S name "back_nf_coef" then on_obj full convert_back_nf_coef j
+  else if S name "nf_fit" then on_obj full convert_nf_fit_coef j
+  else if S name "back_nf_fit" then on_obj full convert_back_nf_fit_coef j
+  else if S name "add_default" then on_obj full add_missing_default_type_variety j
+  else if S name "reorder_route" then on_obj full reorder_route_objects j
+  else if S name "union" then on_obj full remove_union_that_fail j
+  else if S name "alias_edfa" then match j with JObj o => render_alias full (expand_edfa o) | _ => "E:TypeError" end
+  else if S name "alias_trx" then match j with JObj o => render_alias full (expand_trx o) | _ => "E:TypeError" end
   else "E:unknown function"%string.
 
-Definition run_many (names : list string) (j : json) : string :=
-  join "@@" (map (fun n => run_fn n j) names).
+(* "Y.f": f applied to the YANG form computed by the model; "B.f": f applied to the document the back
+   converters of yang_to_legacy see (convert_back (empty_to_none (l2y d)), inside its namespace wrapper) *)
+Definition run_fn (full : bool) (name : string) (j : json) : string :=
+  if String.prefix "Y." name then
+    match legacy_to_yang j with
+    | Ok y => run_base full (substring 2 (String.length name - 2) name) y
+    | Err e => append "E:" e
+    end
+  else if String.prefix "B." name then
+    match (let* y := legacy_to_yang j in convert_back (empty_to_none y)) with
+    | Ok (JObj [(_, inner)]) => run_base full (substring 2 (String.length name - 2) name) inner
+    | Ok _ => "E:TypeError:no wrapper"%string
+    | Err e => append "E:" e
+    end
+  else run_base full name j.
+
+Definition run_many (full : bool) (names : list string) (j : json) : string :=
+  join "@@" (map (fun n => run_fn full n j) names).
 
 (* literal helpers for generated case files *)
 Definition kv (k : string) (v : json) : string * json := (k, v).
@@ -79,4 +128,5 @@ Fixpoint split_csv (s : string) (cur : string) : list string :=
   | String c t => if Ascii.eqb c ","%char then cur :: split_csv t EmptyString
                   else split_csv t (append cur (String c EmptyString))
   end.
-Definition run_csv (names : string) (j : json) : string := run_many (split_csv names EmptyString) j.
+Definition run_csv (names : string) (j : json) : string := run_many false (split_csv names EmptyString) j.
+Definition run_csv_full (names : string) (j : json) : string := run_many true (split_csv names EmptyString) j.
